@@ -79,8 +79,14 @@ def run_case(case, rng):
         # the same planner object first solves a same-size problem with much larger values
         import copy
         sib = copy.deepcopy(sp)
-        for k_ in sib.R:
-            sib.R[k_] = abs(sib.R[k_]) * 20.0 + 50.0
+        if rng.random() < 0.5:
+            for k_ in sib.R:
+                sib.R[k_] = abs(sib.R[k_]) * 20.0 + 50.0
+        else:
+            # ... or a short-sighted one with small rewards (its own sweep budget is a handful of backups)
+            sib.gamma = 0.3
+            for k_ in sib.R:
+                sib.R[k_] = sib.R[k_] * 0.01
         sib_pomdp = Bd.build_pomdp(sib, explicit=True)
         sar2 = np.array(sib_pomdp.state_action_reward_matrix)
         if horizon is not None or eps < sar2.max() - sar2.min():        # the same precondition as for the judged problem
